@@ -125,7 +125,8 @@ Apply(s, r) ==
   CASE r.ev = "Begin" -> Begun(r)
     [] r.ev = "End" -> NoState
     [] ~s.on -> s
-    [] r.ev = "Edit" -> [s EXCEPT !.ep = [@ EXCEPT !.disk = EditDisk(r.kind, @)]]
+    [] r.ev = "Edit" -> [s EXCEPT !.ep = [@ EXCEPT !.disk = EditDisk(r.kind, @)],
+                                  !.dead = @ \/ ("settle" \in DOMAIN r /\ (r.settle.hang \/ r.settle.err # ""))]
     [] r.ev = "Scan" ->
          (LET o == Predicted(s, r)
               cls == ObservedClass(r.l, s.ep.disk)
@@ -188,6 +189,9 @@ Step ==
      IN
      /\ fails' = Cap(fails
                      \o Chk(Want, l, "C21_TraceAccepted", wf)
+                     \o (IF wf /\ r.ev = "Edit" /\ "settle" \in DOMAIN r
+                         THEN Chk(Want, l, "C21_ResponseMatchesRequest", ~r.settle.hang /\ ~IsProtocolErr(r.settle.err))
+                         ELSE <<>>)
                      \o (IF op THEN Chk(Want, l, "C21_SameAsLocal", SameAsLocal(st, r))
                                     \o Chk(Want, l, "C21_SnapshotExact", ExactSnapshot(r))
                                     \o Chk(Want, l, "C21_ResponseMatchesRequest", InStep(r))
